@@ -193,7 +193,7 @@ def check_c15(exe, tier, seed, verdict):
             samples.append({"option": optstr, "file": file_bytes(x["lines"]).decode("latin-1"), "expected": x["exp"]})
     # few line shapes, more lines: a key defined again after its section was left and re-opened ([S] a=.. [T] .. [S] a=..)
     for opt, optstr in (("joinsections", "JOIN_SAME_ENTRIES=1"), ("nojoinsections", "")):
-        r, recs, total = export("MC_Parser", {"MaxLines": 5 if tier == "quick" else 6, "Export": "TRUE", "WithBad": "FALSE", "Opt": '"%s"' % opt},
+        r, recs, total = export("MC_Parser", {"MaxLines": 6 if tier == "quick" else 7, "Export": "TRUE", "WithBad": "FALSE", "Opt": '"%s"' % opt},
                                 ["ParseIsMeaning"], sample=1 if opt == "joinsections" else 3, seed=seed)
         if r.violated:
             verdict.violation("C15:model:" + opt, {"tlc": r.out[-3000:]}, "TLC: Parser differs from Meaning under option %s\n%s" % (opt, r.out[-1500:]))
@@ -214,8 +214,8 @@ def check_c15(exe, tier, seed, verdict):
     acc = p_parser.validate_prefix_traces(exe, files, verdict, "C15", tag="o")
     cov = {"states": states, "transitions": states, "traces_validated_against_impl": ok + okopt + acc,
            "evaluations": ncases + nopt + sum(len(f["lines"]) for f in files), "distinct_nontrivial": nn + nnopt,
-           "rule": "JOIN grammar: all files of <= %d lines over the join pool (keys a/b defined repeatedly, empty definitions, continuation lines, re-opened sections; and all files of <= %d lines over {[S], [T], a=v, a=w, a=, b=v}: a key defined again after its section was left and re-opened) read WITH JOIN_SAME_ENTRIES=1 (value list = lines of all definitions since the last empty one) and WITHOUT it (first definition); PYTHON_STYLE: all files of <= %d lines over the python pool (indented lines containing delimiters, comment characters inside values); option strings: every sequence of <= %d items from JOIN_SAME_ENTRIES=0|1, PYTHON_STYLE=0|1, PARSING_DIRS (3 lists), CONFIG_DIRS (2 lists), ROOT_PREFIX (2 roots) and 3 unknown/misspelt names (%d strings, %d replayed) each followed by a probe read whose marker keys reveal the directories, postfixes and root consulted and the two parsing flags; %d random files of both grammars as prefix traces. non-trivial = key with >= 2 definitions / indented line containing a delimiter / option string with >= 2 items or an unknown item not in first position." % (
-               maxl + 1, 5 if tier == "quick" else 6, maxl, 3 if tier == "quick" else 4, totopt, nopt, len(files)),
+           "rule": "JOIN grammar: all files of <= %d lines over the join pool (keys a/b defined repeatedly, empty definitions, continuation lines, re-opened sections; and all files of <= %d lines over {[S], [T], a=v, a=w, a=}: a key defined again after its section was left and re-opened) read WITH JOIN_SAME_ENTRIES=1 (value list = lines of all definitions since the last empty one) and WITHOUT it (first definition); PYTHON_STYLE: all files of <= %d lines over the python pool (indented lines containing delimiters, comment characters inside values); option strings: every sequence of <= %d items from JOIN_SAME_ENTRIES=0|1, PYTHON_STYLE=0|1, PARSING_DIRS (3 lists), CONFIG_DIRS (2 lists), ROOT_PREFIX (2 roots) and 3 unknown/misspelt names (%d strings, %d replayed) each followed by a probe read whose marker keys reveal the directories, postfixes and root consulted and the two parsing flags; %d random files of both grammars as prefix traces. non-trivial = key with >= 2 definitions / indented line containing a delimiter / option string with >= 2 items or an unknown item not in first position." % (
+               maxl + 1, 6 if tier == "quick" else 7, maxl, 3 if tier == "quick" else 4, totopt, nopt, len(files)),
            "samples": samples[:3], "exhaustive": tier == "thorough",
            "trusted_base": ["TLC 1.8.0", "gcc ASan/UBSan", "drv.c"]}
     return cov, p_parser.BASE_ASSUME + ["empty option items (';;', trailing ';') are outside the universe"], "model_checking"
